@@ -133,6 +133,8 @@ class Problem(object):
                     self.gs.append(mk_func(inst['gs'][j], L.range))
         self.f = mk_func(inst['f'], self.dom)
         self.h = mk_func(inst['h'], self.dom)
+        # infimal-convolution terms of forward_backward_pd (option l), one per operator
+        self.ls = [mk_func(l, L.range) for l, L in zip(inst.get('ls') or [], self.Ls)]
         self.tau = qf(inst['tau'])
         self.sig = [qf(s) for s in inst['sig']]
         self.th = qf(inst['th'])
@@ -163,7 +165,7 @@ class Rec(object):
 
 def applicable_concs(inst):
     out = ['rn']
-    if inst.get('pw', 1) > 1:
+    if inst.get('pw', 1) > 1 or inst.get('ls'):
         return out
     if inst['solver'] in ('admm', 'dpdc', 'pdhg', 'pg', 'landweber', 'sd', 'cgn', 'dr', 'fb') \
             and len(inst['Ls']) == 1 and len(inst['Ls'][0]) >= 2:
@@ -207,7 +209,7 @@ def scale_inst(inst, s):
     vs = lambda v: [_fq(qfr(q) * s) for q in v]
     if sol in NONSMOOTH:
         out.update(f=_sf(inst['f'], s), gs=[_sf(g, s) for g in inst['gs']], h=_sf(inst['h'], s),
-                   x0=vs(inst['x0']), y0=vs(inst['y0']))
+                   x0=vs(inst['x0']), y0=vs(inst['y0']), ls=[_sf(l, s) for l in inst.get('ls') or []])
         return out, float(s)
     if sol in ('sdbt', 'mlem'):
         out.update(b=[vs(b) for b in inst['b']], x0=vs(inst['x0']), sol=vs(inst['sol']))
@@ -305,8 +307,12 @@ def run_real(inst, conc, variant, segments, x_start=None, y_start=None, pass_sta
                 kw = {}
                 if y is not None:
                     kw = {'x_relax': xr, 'y': y}
-                if default_steps:      # pdhg_stepsize: tau = sigma = sqrt(0.9) / |L|
+                if default_steps:      # pdhg_stepsize: neither / only tau / only sigma given
                     np.random.seed(12345)
+                    if default_steps == 'tau':
+                        kw['tau'] = P.tau
+                    elif default_steps == 'sigma':
+                        kw['sigma'] = P.sig[0]
                     S.pdhg(x, P.f, P.gs[0], P.Ls[0], seg, theta=P.th, callback=rec, **kw)
                 else:
                     for gk in ('gamma_primal', 'gamma_dual'):
@@ -320,7 +326,8 @@ def run_real(inst, conc, variant, segments, x_start=None, y_start=None, pass_sta
                 else:
                     S.douglas_rachford_pd(x, P.f, P.gs, P.Ls, seg, tau=P.tau, sigma=P.sig, callback=rec, lam=relax)
             elif sol == 'fb':
-                S.forward_backward_pd(x, P.f, P.gs, P.Ls, P.h, P.tau, P.sig, seg, callback=rec)
+                S.forward_backward_pd(x, P.f, P.gs, P.Ls, P.h, P.tau, P.sig, seg, callback=rec,
+                                      **({'l': P.ls} if P.ls else {}))
             elif sol in ('pg', 'apg'):
                 g = P.gs[0] * P.Ls[0]
                 if sol == 'pg':
@@ -413,6 +420,21 @@ def _subdiff_box(fr, z, delta):
     return lo, hi
 
 
+def _np_prox(fr, s, z):
+    """prox_{s f}(z) of a functional record in NumPy (harness-side numbers for the KKT residual only)."""
+    k = fr['k']
+    t = vec(fr['t']) if fr['t'] else np.zeros(len(z))
+    c = qf(fr['c'])
+    if k == 'L1':
+        d = z - t
+        return t + np.sign(d) * np.maximum(np.abs(d) - s * c, 0)
+    if k == 'L2sq':
+        return (z + 2 * s * c * t) / (1 + 2 * s * c)
+    if k == 'Box':
+        return np.clip(z, qf(fr['lo']), qf(fr['hi']))
+    return z.copy()
+
+
 def box_infeasibility(fr, z):
     if fr['k'] != 'Box':
         return 0.0
@@ -447,6 +469,16 @@ def kkt_residual(inst, x, ys=None, rel_delta=None):
         glo.append(lo)
         ghi.append(hi)
         infeas += box_infeasibility(g, z)
+    if inst.get('ls'):
+        # g_i infimally convolved with l_i = c |. - t|^2 is differentiable: its gradient at z = L_i x is the unique
+        # v with v in dg_i(z - grad l_i*(v)), i.e. v = 2c (z - t - u), u = prox_{g_i/(2c)}(z - t)
+        r = hg.copy()
+        for M, g, l in zip(Ms, inst['gs'], inst['ls']):
+            c = qf(l['c'])
+            z = M.dot(x) - (vec(l['t']) if l['t'] else 0)
+            r += M.T.dot(2 * c * (z - _np_prox(g, 1.0 / (2 * c), z)))
+        s_ = -r
+        return float(np.linalg.norm(s_ - np.clip(s_, flo, fhi))) + box_infeasibility(inst['f'], x)
     if ys is not None:
         r = hg.copy()
         dd = 0.0
@@ -752,6 +784,7 @@ def rel_run(d, variant, segments, pass_state=True):
                 raise ValueError(sol)
             out['its'] += rec.its
             out['ncb'].append(len(rec.its))
+            out.setdefault('xret', []).append(flat(x))       # what the caller holds after this call
         out['x'] = flat(x)
         if y is not None:
             out['y'] = flat(y)
@@ -760,6 +793,25 @@ def rel_run(d, variant, segments, pass_state=True):
     except Exception as e:
         out['err'] = type(e).__name__ + ': ' + str(e)[:160]
     return out
+
+
+def rel_kaczmarz_substeps(d):
+    """kaczmarz one block at a time: N sweeps x m single-operator calls (niter=1) on the same x; returns the x the
+    caller holds after every call - the sequence of ITERATES an inner callback must observe."""
+    dom = odl.rn(d['n'])
+    opts = d.get('opts', {})
+    M = np.array(d['Ms'][0][0], dtype=float)
+    rows = [odl.MatrixOperator(M[i:i + 1].copy(), domain=dom) for i in range(M.shape[0])]
+    if d.get('pw', 1) > 1:
+        rows = [r * odl.PowerOperator(dom, d['pw']) for r in rows]
+    proj = _nonneg if opts.get('projection') else None
+    x = dom.element(np.array(d['x0'], dtype=float))
+    seq = []
+    for _ in range(d['niter']):
+        for i, r in enumerate(rows):
+            S.kaczmarz([r], x, [r.range.element([d['b'][i]])], 1, omega=d['tau'], projection=proj)
+            seq.append(flat(x))
+    return seq
 
 
 def pair_event(kind_clause, solver, niter, A, B, na, nb, bits=20, start=None):
